@@ -155,6 +155,27 @@ CHECKS.update({
     ),
 })
 
+CHECKS.update({
+    "C20": dict(
+        engine="Dataset.tla, Version.tla, Version_Eval.tla, Dataset_Eval.tla", category="model_checking",
+        text="Dataset.tla's Relocate action (the directory moves; all metadata paths are root-relative, so every "
+             "invariant - exact metadata, passing check, append-only continuation - is checked by TLC across "
+             "moves and a fresh Open yields the handle the writer held) and Version.tla (Loads(v) <=> v <= running "
+             "in MAJOR, MINOR, PATCH order; major-only and digit-string gates are refuted). TLC behaviours with "
+             "Relocate steps are replayed with real moves/copies to nested, Unicode and blank-containing targets, "
+             "reopened via absolute and cwd-relative paths, then checked, iterated and written further with the "
+             "projected state compared with the specification's and judged by TLC; every version triple around "
+             "the running version (incl. two-digit components) is patched into dataset_info.json and load/refuse "
+             "judged by TLC; hypothesis-generated descriptions (Unicode text, nested JSON custom metadata at "
+             "dataset / attribute / shard level, every format x compression, algorithm tuples) must be "
+             "reconstructed exactly by a fresh open.",
+        design_ref="DESIGN.md 5/C20",
+        note="Description round-trip over arbitrary text is sampled (derandomized hypothesis), not enumerated.",
+        technique="TLA+ model checking (Relocate, version gate) + replay of TLC behaviours with real moves + "
+                  "TLC-judged version triples + property-based description round-trips",
+    ),
+})
+
 NOT_YET = {}
 
 ALL = [f"C{i:02d}" for i in range(1, 21)]
